@@ -300,6 +300,45 @@ def run_case(case):
     if not abs(lhs - rhs) <= (1e-10 if not single else 1e-4) * sc:
         return violated(sig, "nufft_adjoint is not the adjoint of nufft: %s vs %s" % (lhs, rhs),
                         wit, mech="adjoint", obs=obs)
+    # the operator classes are the same transform with the same parameters, also when reached
+    # indirectly (adjoint of the adjoint, NUFFTAdjoint constructed directly)
+    if sum(case["rs"]) % 3 == 0:
+        A = sp.linop.NUFFT(batch + grid, coord, oversamp=ov, width=w)
+        B = sp.linop.NUFFTAdjoint(batch + grid, coord, oversamp=ov, width=w)
+        xc = np.ascontiguousarray(x0)
+        rt = 1e-12 if not single else 1e-5
+        for nm_, got_, ref_ in (("linop.NUFFT", A(xc), y), ("linop.NUFFT.H", A.H(yy), xa),
+                                ("linop.NUFFT.H.H", A.H.H(xc), y),
+                                ("linop.NUFFTAdjoint", B(yy), xa),
+                                ("linop.NUFFTAdjoint.H", B.H(xc), y),
+                                ("linop.NUFFTAdjoint.H.H", B.H.H(yy), xa)):
+            checks += 1
+            d_ = nrm(np.asarray(got_) - ref_) / max(nrm(ref_), 1e-300)
+            obs["linop_paths"] = max(obs.get("linop_paths", 0.0), d_)
+            if np.shape(got_) != np.shape(ref_) or not d_ <= rt:
+                return violated(sig, "%s differs from the function called with the same "
+                                "(oversamp %s, width %s): rel %.3g" % (nm_, ov, w, d_), wit,
+                                mech="linop-path", obs=obs)
+    # coordinates handed over with an integer dtype (on-grid points from arange / mgrid):
+    # either rejected or as accurate as the same points given as floats
+    if case["ccls"] == "integer" and np.array_equal(coord, np.round(coord)):
+        ci_ = coord.astype(np.int64)
+        for nm_, call_, ref_ in (
+                ("nufft", lambda: sp.nufft(x0, ci_, oversamp=ov, width=w), y),
+                ("nufft_adjoint", lambda: sp.nufft_adjoint(yy, ci_, batch + grid, oversamp=ov,
+                                                           width=w), xa)):
+            try:
+                got_ = call_()
+            except Exception:
+                obs["int_coord_rejected"] = 1
+                continue
+            checks += 1
+            d_ = nrm(got_ - ref_) / max(nrm(ref_), 1e-300)
+            obs["int_coord_accepted"] = d_
+            if np.shape(got_) != np.shape(ref_) or not d_ <= (1e-9 if not single else 1e-4):
+                return violated(sig, "%s accepts integer-dtype coordinates but returns "
+                                "something else than for the same points as floats: rel %.3g"
+                                % (nm_, d_), wit, mech="int-coord", obs=obs)
     # Gram: nufft_adjoint(nufft(x)) ~ E^H E x within 2 eps
     if th is not None and case["img"] == "gauss":
         E = O.ndft_matrix(coord, grid)
